@@ -12,7 +12,8 @@
 //!   c13 proj <seed> <n_gen> <n_transforms> <projects_in.jsonl|-> <out.jsonl> <workdir> [threads]
 //!        ORACLE: every project (input file first, then n_gen generated ones) is analysed with
 //!        `Project::analyse()` (all linters on) as it is and after each of n_transforms token-preserving
-//!        transformations (k%4: 0 re-spacing, 1 comments inserted/deleted, 2 case permutation, 3 all three);
+//!        transformations (k%6: 0 re-spacing, 1 comments inserted/deleted, 2 case permutation, 3 all three,
+//!        4 every file joined onto one line, 5 one token per line);
 //!        diagnostics are compared through the token-index map.
 //!   c13 replay <replay.json> <workdir>               re-run one recorded (original, transformed) pair
 //!
@@ -332,6 +333,10 @@ fn tokenize(symbols: &Symbols, text: &str) -> FileToks {
 const MODE_SPACE: u32 = 1;
 const MODE_COMMENT: u32 = 2;
 const MODE_CASE: u32 = 4;
+/// every gap becomes one blank (or nothing where two tokens may touch), comments are dropped: each file on ONE line
+const MODE_JOIN: u32 = 8;
+/// every gap becomes a line break (comments kept on lines of their own): ONE TOKEN PER LINE
+const MODE_SPLIT: u32 = 16;
 
 #[derive(Default, Clone)]
 struct TStats {
@@ -469,6 +474,29 @@ fn new_gap(rng: &mut Rng, orig: &[char], mode: u32, must_sep: bool, is_tail: boo
         _ => false,
     }) {
         return orig.iter().collect();
+    }
+    if mode & MODE_JOIN != 0 {
+        st.comments_removed += pieces.iter().filter(|p| !matches!(p, Piece::Ws(_))).count();
+        if is_tail {
+            return if rng.below(2) == 0 { String::new() } else { "\n".to_string() };
+        }
+        return if must_sep || (!orig.is_empty() && rng.below(3) != 0) { " ".to_string() } else { String::new() };
+    }
+    if mode & MODE_SPLIT != 0 {
+        let mut out = String::from(if rng.below(4) == 0 { "\r\n" } else { "\n" });
+        for p in &pieces {
+            match p {
+                Piece::Ws(_) => {}
+                Piece::Line(c) | Piece::Block(c) => {
+                    out.push_str(c);
+                    out.push('\n');
+                }
+            }
+        }
+        if rng.below(3) == 0 {
+            out.push_str(["  ", "\t", "        "][rng.below(3)]);
+        }
+        return out;
     }
     let mut out = String::new();
     // `pending_nl`: the previous piece was a line comment, the next thing must start with a line break
@@ -614,7 +642,11 @@ fn transform_file(symbols: &Symbols, rng: &mut Rng, text: &str, mode: u32, st: &
         let tt = &chars[t.s..t.e];
         let g: String = if keep_gap > 0 {
             keep_gap -= 1;
-            gap.iter().collect()
+            if mode & MODE_JOIN != 0 && gap.iter().all(|c| matches!(c, ' ' | '\t' | '\n' | '\r')) {
+                gap.iter().map(|c| if matches!(c, '\n' | '\r') { ' ' } else { *c }).collect()
+            } else {
+                gap.iter().collect()
+            }
         } else {
             let must_sep = i > 0 && !gap.is_empty() && !may_touch(&chars[toks[i - 1].s..toks[i - 1].e], tt);
             new_gap(rng, gap, mode, must_sep, false, st)
@@ -882,11 +914,13 @@ fn compare_pair(
 }
 
 fn mode_of(k: usize) -> u32 {
-    match k % 4 {
+    match k % 6 {
         0 => MODE_SPACE,
         1 => MODE_COMMENT,
         2 => MODE_CASE,
-        _ => MODE_SPACE | MODE_COMMENT | MODE_CASE,
+        3 => MODE_SPACE | MODE_COMMENT | MODE_CASE,
+        4 => MODE_JOIN,
+        _ => MODE_SPLIT,
     }
 }
 
